@@ -308,7 +308,7 @@ fn run_case(plan: &Plan, h: &History, case: usize, origin: &str, sh: &Shared) {
                             "client #{x} on {}: response to op #{i} ({}) is {} when other clients' requests are interleaved but {} when its own requests run alone",
                             kind.name(), op.kind_name(), out.abs[i].0, so.abs[i].0
                         );
-                        sh.found.lock().unwrap().push(mk_found(plan, msg, h, case, origin, json!({"subject": kind.name(), "client": x, "op_index": i, "full_log": out.log.iter().rev().take(30).rev().cloned().collect::<Vec<_>>()})));
+                        sh.found.lock().unwrap().push(mk_found(plan, msg, h, case, origin, json!({"subject": kind.name(), "client": x, "op_index": i, "full_log": out.log.iter().filter(|l| l.contains(&format!(" c{x} "))).cloned().collect::<Vec<_>>(), "solo_log": so.log.clone(), "full_state": out.abs_state.iter().enumerate().filter(|(j, _)| h.ops[*j].client == x).map(|(j, s)| format!("#{j} {s}")).collect::<Vec<_>>(), "solo_state": so.abs_state.iter().enumerate().filter(|(j, _)| h.ops[*j].client == x).map(|(j, s)| format!("#{j} {s}")).collect::<Vec<_>>()})));
                         sh.stop.store(true, Ordering::SeqCst);
                         return;
                     }
